@@ -25,7 +25,7 @@ TraceLog == ndJsonDeserialize("trace.ndjson")
 VARIABLES l, T, viol, fired
 vars == <<l, T, viol, fired>>
 
-NoTree == [par |-> [x \in {} |-> ""], num |-> [x \in {} |-> 0], inv |-> {}]
+NoTree == [par |-> [x \in {} |-> ""], num |-> [x \in {} |-> 0], inv |-> {}, txs |-> [x \in {} |-> {}]]
 AddNew(vs, new) == vs \cup { v \in new : ~\E w \in vs : w[1] = v[1] /\ w[2] = v[2] }
 
 ObsViol(o, phase, mode, line) == { <<name, Class(name, T, o) \cup {phase, mode}, line>> : name \in Failing(T, o) }
@@ -47,7 +47,8 @@ Step ==
    /\ l' = l + 1
    /\ LET e == TraceLog[l] IN
       CASE e.ev = "tree" ->
-             /\ T' = [par |-> e.par, num |-> e.num, inv |-> { e.inv[i] : i \in DOMAIN e.inv }]
+             /\ T' = [par |-> e.par, num |-> e.num, inv |-> { e.inv[i] : i \in DOMAIN e.inv },
+                       txs |-> [b \in DOMAIN e.txs |-> { e.txs[b][i] : i \in DOMAIN e.txs[b] }]]
              /\ UNCHANGED <<viol, fired>>
         [] e.ev = "import" ->
              /\ viol' = AddNew(viol, ObsViol(e.obs, "nocrash", e.mode, l))
